@@ -547,8 +547,20 @@ fn c19_wire(seed: u64, plugins_on: bool, rep: &Report) -> Result<(), String> {
     if plugins_on {
         cfg.pools[0].raw_tables = PLUGINS.to_string();
     }
+    // half of the scenarios with the prepared-statement cache on, and a third in session mode
+    // (the client keeps its server, buffered extended messages of a denied batch have somewhere to go)
+    let cache_on = rng.chance(1, 2);
+    if cache_on {
+        cfg.pools[0].set("prepared_statements_cache_size", "16");
+    }
+    let session_mode = rng.chance(1, 3);
+    if session_mode {
+        cfg.pools[0].set("pool_mode", "\"session\"");
+    }
     cell.start_pgcat(&cfg, &StartOpts::default()).map_err(|e| format!("start: {:?}", e))?;
     let mut c = connect(&cell, "p").map_err(|e| e.to_string())?;
+    // every statement that had to be denied: none of them may show up at a server later either
+    let mut must_never_arrive: Vec<(String, String, String)> = vec![];
     // (sql template with {T}, position)
     let templates: &[(&str, &str)] = &[
         ("SELECT * FROM {T}", "from"),
@@ -605,7 +617,47 @@ fn c19_wire(seed: u64, plugins_on: bool, rep: &Report) -> Result<(), String> {
         let (name, spelling, listed) = *rng.pick(spellings);
         let sql = format!("{} {}", tpl.replace("{T}", name), tag("p", &qid, ""));
         let ext = rng.chance(1, 3) && !tpl.contains(';') && !tpl.starts_with("COPY");
-        let r = if ext {
+        let r = if ext && rng.chance(1, 3) {
+            // named Parse alone, then Bind/Execute by that name in a later batch, then Close
+            c.send(&[proto::parse("s_n", &sql, &[]), proto::sync()].concat()).map_err(|e| e.to_string())?;
+            let r1 = c.read_until_ready(8000);
+            match r1 {
+                Err(e) => (Err(e), "extended_named_parse_then_bind_later"),
+                Ok(mut m1) => {
+                    let mut b = vec![];
+                    b.extend(proto::bind("", "s_n", &[], &[], &[]));
+                    b.extend(proto::execute("", 0));
+                    b.extend(proto::sync());
+                    c.send(&b).map_err(|e| e.to_string())?;
+                    match c.read_until_ready(8000) {
+                        Ok(m2) => {
+                            c.send(&[proto::close(b'S', "s_n"), proto::sync()].concat()).map_err(|e| e.to_string())?;
+                            let m3 = c.read_until_ready(8000);
+                            // the verdict on "denied" is taken from the Parse batch
+                            let _ = m2;
+                            match m3 {
+                                Ok(_) => (Ok(std::mem::take(&mut m1)), "extended_named_parse_then_bind_later"),
+                                Err(e) => (Err(e), "extended_named_parse_then_bind_later"),
+                            }
+                        }
+                        Err((m, e)) => {
+                            // disconnected after Bind of a statement that was never prepared: acceptable
+                            // for the client, but the scenario cannot continue on this connection
+                            let reached = { sleep_ms(2); arrivals(&cell).contains_key(&qid) };
+                            if plugins_on && listed && reached {
+                                rep.violation(&format!("C19|denied_statement_reached_server|pos={}|spelling={}|extended_named_parse_then_bind_later", pos, spelling), &format!("`{}` was denied at Parse, the later Bind/Execute by name sent it to a server", sql), json!({"seed": seed}));
+                            }
+                            if !(plugins_on && listed) {
+                                return Err(format!("{}: {:?} {}", qid, e, summarize(&m)));
+                            }
+                            c = connect(&cell, "p").map_err(|e| e.to_string())?;
+                            in_block = false;
+                            continue;
+                        }
+                    }
+                }
+            }
+        } else if ext {
             // the denied Parse is not always the last one of the batch
             let mut b = vec![];
             let first_denied = rng.chance(1, 2);
@@ -642,6 +694,9 @@ fn c19_wire(seed: u64, plugins_on: bool, rep: &Report) -> Result<(), String> {
         rep.distinct_str(&format!("{}|{}|{}|{}|{}", pos, spelling, proto_name, in_block, plugins_on));
         rep.set_add("position_x_spelling", &format!("{}x{}", pos, spelling));
         let must_deny = plugins_on && listed;
+        if must_deny && !reached {
+            must_never_arrive.push((qid.clone(), sql.clone(), format!("pos={}|spelling={}|{}", pos, spelling, proto_name)));
+        }
         if must_deny && reached {
             // which Parse of the batch is denied matters, not where the table is mentioned
             let sig = if proto_name == "extended_denied_parse_first" && arrivals(&cell).contains_key(&format!("{}x", qid)) {
@@ -670,6 +725,23 @@ fn c19_wire(seed: u64, plugins_on: bool, rep: &Report) -> Result<(), String> {
         }
         if denied && in_block {
             // pooler-generated error does not abort the server transaction; keep going
+        }
+    }
+    if in_block {
+        let _ = c.query("COMMIT", 5000);
+    }
+    let _ = c.query(&format!("SELECT 1 {}", tag("p", "p.last", "")), 5000);
+    sleep_ms(2);
+    let arr = arrivals(&cell);
+    for (qid, sql, what) in &must_never_arrive {
+        rep.count("wire_denied_statements_rechecked_at_end", 1);
+        if arr.contains_key(qid) {
+            rep.violation(
+                &format!("C19|denied_statement_reached_server_with_a_later_batch|{}|cache={}|mode={}", what.split('|').last().unwrap_or(""), cache_on, if session_mode { "session" } else { "transaction" }),
+                &format!("`{}` ({}) was answered with the permission error, but its messages were sent to a server together with a later batch of the same client", sql, what),
+                json!({"seed": seed}),
+            );
+            break;
         }
     }
     Ok(())
